@@ -279,6 +279,12 @@ func child(c *kit.Ctx, role string) {
 				ok = guarded(s, fmt.Sprintf("reestablish/%d", i), func() bool { runReestablish(s, c, i, st); return true })
 			}
 		}
+		for i := 0; i < p.reest && ok; i++ {
+			if c.Want(fmt.Sprintf("failing-stop/%d", i)) {
+				i := i
+				ok = guarded(s, fmt.Sprintf("failing-stop/%d", i), func() bool { runFailingStop(s, c, i, st); return true })
+			}
+		}
 		for i := 0; i < p.gc && ok; i++ {
 			if c.Want(fmt.Sprintf("gc/%d", i)) {
 				i := i
